@@ -269,6 +269,12 @@ func label(v any) string {
 		return fmt.Sprintf("%v/%08x", x, math.Float32bits(x))
 	case string:
 		return fmt.Sprintf("%q", x)
+	case []byte, []string, []int, []float64, []float32:
+		return fmt.Sprintf("%#v", v) // tells nil from empty
+	case []any:
+		if x == nil {
+			return "[]any(nil)"
+		}
 	}
 	return fmt.Sprintf("%T(%v)", v, v)
 }
